@@ -607,6 +607,27 @@ def main(argv):
     with ThreadPoolExecutor(max_workers=4) as ex:
         for fut in [ex.submit(timed, sc) for sc in SUBCHECKS]:
             fut.result()
+    # 4b. start-up of the state machine on populated stores: a restarted node must enter the height / round its stores
+    # prescribe (monitor c10_sm_resume) - entering any other round makes the mirror kernel panic on the round entrance
+    # (view not found), i.e. a restart at the wrong moment would crash the engine for good. Model-walked histories with
+    # Stop/Start events and the scripted restart histories, on the real tmstate.StateMachine.
+    if not c.replay:
+        import sm_common as S
+        t1 = _t.time()
+        tok_sm, binary_sm = S.prepare(c)
+        if binary_sm is not None:
+            keep = dict(c.coverage)
+            n_sm, steps_sm = (24, 40) if c.tier == "quick" else (200, 60)
+            S.walked(c, "C09", binary_sm, "c09sm", n_sm, steps_sm, ["c10_sm_resume"], lambda name, evs, fl: name)
+            wk = {k: c.coverage[k] for k in ("evaluations", "traces", "event_distribution") if k in c.coverage}
+            S.run_scenarios(c, binary_sm, "c09sm", ["c10_sm_resume"], lambda name, evs, fl: name)
+            sc = c.coverage.get("scripted_histories")
+            for k in list(c.coverage):
+                if k not in keep:
+                    del c.coverage[k]
+            c.coverage.update(keep)
+            c.coverage["state_machine_restarts"] = {"walked": wk, "scripted": sc}
+        c.coverage["stage_seconds"]["state_machine_restarts"] = round(_t.time() - t1, 1)
     # 5. an obligation broke but no sub-check found a failing input on the implementation
     if not ctx.proved and not any(v[3] for v in c.violations):
         b = getattr(c, "broken", {"file": "?", "log": ""})
